@@ -155,7 +155,8 @@ where
                 let amount = amount.min(MAX_HEADERS_AMOUNT_RESPONSE);
                 let mut responses = vec![];
 
-                for i in origin..origin + amount {
+                // `origin` is chosen by the remote peer: `origin + amount` must not overflow.
+                for i in origin..origin.saturating_add(amount) {
                     match store.get_by_height(i).await {
                         Ok(h) => {
                             if responses.is_empty() {
